@@ -108,7 +108,9 @@ Effect(e) ==
       [] OTHER -> UNCHANGED <<vars, tvars>>
 
 (* invariants of NuSpaceSim.tla evaluated in the state after every event *)
-Post == Fails(<< <<"inv FinalStructure (C14: exactly the columns/header keywords of the enabled stages; empty run = geometry only)",
+Post == Fails(<< <<"inv FinalStructure (C14: the columns of every enabled stage, once each, and the integral keywords of every enabled channel; empty run = geometry columns)",
+                   FinalStructureAtLeast'>>,
+                 <<"EXT: the returned table has exactly the columns / header keywords of the enabled stages, nothing else",
                    FinalStructure'>>,
                  <<"inv DiskIsPrefix (C17)", DiskIsPrefix'>>,
                  <<"inv NoWriteWhenDisabled (C17)", NoWriteWhenDisabled'>> >>)
